@@ -24,6 +24,7 @@ import (
 	"time"
 
 	"github.com/valyala/fasthttp"
+	"github.com/valyala/fasthttp/fasthttputil"
 	"verif/harness/hlib"
 )
 
@@ -34,7 +35,7 @@ type op struct {
 }
 
 type desc struct {
-	Mode string `json:"mode"` // replay | stress
+	Mode string `json:"mode"` // replay | stress | server
 	Cap  int    `json:"cap"`
 	Max  int    `json:"max"`
 	// replay
@@ -547,6 +548,7 @@ func runStress(d desc) hlib.Case {
 	}
 	v := fasthttp.VerifNewWorkerPool(wf, d.Max, 300*time.Microsecond, cs, nopLogger{})
 	v.Start()
+	v.Start() // a second Start is a no-op (no second cleaner)
 	var next atomic.Int32
 	var wg sync.WaitGroup
 	stopOnce := sync.Once{}
@@ -584,6 +586,7 @@ func runStress(d desc) hlib.Case {
 	}
 	wg.Wait()
 	stopOnce.Do(v.Stop)
+	v.Stop() // a second Stop is a no-op
 	waitFor(func() bool { rd, wc, _ := v.Snapshot(); return wc == 0 && len(rd) == 0 })
 	close(sampleDone)
 	ready, wc, ms := v.Snapshot()
@@ -603,6 +606,167 @@ func runStress(d desc) hlib.Case {
 	c.Coq = fmt.Sprintf("(CStress %s %s %s (mkObs %s %s %s))", hlib.Z(int64(d.Max)), hlib.List(crs), hlib.Z(int64(maxc.Load())),
 		hlib.List(ids), hlib.Z(int64(wc)), hlib.Bool(ms))
 	c.Sig = fmt.Sprintf("s%d-%d-%d-%d-%v", d.Cap, d.Max, d.Acceptors, bucket(d.NConn-acc), d.StopAfter < d.NConn)
+	return c
+}
+
+
+// ---- through the public API: Server.Serve ------------------------------------------
+
+type cntConn struct {
+	net.Conn
+	id     int
+	closes atomic.Int32
+	rec    *connRec
+}
+
+func (c *cntConn) Close() error { c.closes.Add(1); return c.Conn.Close() }
+
+type cntListener struct {
+	net.Listener
+	mu    sync.Mutex
+	conns []*cntConn
+}
+
+func (l *cntListener) Accept() (net.Conn, error) {
+	c, err := l.Listener.Accept()
+	if err != nil {
+		return nil, err
+	}
+	l.mu.Lock()
+	cc := &cntConn{Conn: c, id: len(l.conns), rec: &connRec{id: len(l.conns), conn: &fakeConn{}}}
+	l.conns = append(l.conns, cc)
+	l.mu.Unlock()
+	return cc, nil
+}
+
+func workerGoroutines() int {
+	buf := make([]byte, 1<<20)
+	buf = buf[:runtime.Stack(buf, true)]
+	return strings.Count(string(buf), "(*workerPool).workerFunc(")
+}
+
+func runServer(d desc) hlib.Case {
+	base := workerGoroutines() // pools of earlier cases are stopped; anything still draining is not ours
+	inner := fasthttputil.NewInmemoryListener()
+	ln := &cntListener{Listener: inner}
+	var cur, maxc atomic.Int32
+	note := func(v int32) {
+		for {
+			m := maxc.Load()
+			if v <= m || maxc.CompareAndSwap(m, v) {
+				return
+			}
+		}
+	}
+	rnd := rand.New(rand.NewSource(d.Seed))
+	work := make([]time.Duration, d.NConn)
+	for i := range work {
+		if d.WorkUs > 0 {
+			work[i] = time.Duration(rnd.Intn(d.WorkUs+1)) * time.Microsecond
+		}
+	}
+	srv := &fasthttp.Server{
+		Concurrency:           d.Max,
+		MaxIdleWorkerDuration: 300 * time.Microsecond,
+		Logger:                nopLogger{},
+		ReadTimeout:           2 * time.Second,
+		Handler: func(ctx *fasthttp.RequestCtx) {
+			cc := ctx.Conn().(*cntConn)
+			note(cur.Add(1))
+			cc.rec.served.Add(1)
+			if w := work[cc.id%len(work)]; w > 0 {
+				time.Sleep(w)
+			} else {
+				runtime.Gosched()
+			}
+			cur.Add(-1)
+			ctx.SetBodyString("ok")
+			if string(ctx.Path()) == "/hij" { // (a hijack is dropped by serveConn when the response says Connection: close, so these keep alive)
+				cc.rec.hij = true
+				ctx.Hijack(func(c net.Conn) {})
+			} else {
+				ctx.SetConnectionClose()
+			}
+		},
+		ConnState: func(c net.Conn, st fasthttp.ConnState) {
+			cc, ok := c.(*cntConn)
+			if !ok {
+				return
+			}
+			switch st {
+			case fasthttp.StateClosed:
+				cc.rec.stClosed.Add(1)
+			case fasthttp.StateHijacked:
+				cc.rec.stHij.Add(1)
+			}
+		},
+	}
+	served := make(chan error, 1)
+	go func() { served <- srv.Serve(ln) }()
+	var wg sync.WaitGroup
+	var n503, lost atomic.Int32
+	var next atomic.Int32
+	for a := 0; a < d.Acceptors; a++ {
+		wg.Add(1)
+		go func() {
+			defer wg.Done()
+			for {
+				i := int(next.Add(1)) - 1
+				if i >= d.NConn {
+					return
+				}
+				c, err := inner.Dial()
+				if err != nil {
+					lost.Add(1)
+					continue
+				}
+				_ = c.SetDeadline(time.Now().Add(3 * time.Second))
+				if i%5 == 4 {
+					_, _ = c.Write([]byte("GET /hij HTTP/1.1\r\nHost: x\r\n\r\n"))
+				} else {
+					_, _ = c.Write([]byte("GET / HTTP/1.1\r\nHost: x\r\nConnection: close\r\n\r\n"))
+				}
+				resp, _ := io.ReadAll(c)
+				_ = c.Close()
+				switch {
+				case strings.HasPrefix(string(resp), "HTTP/1.1 503"):
+					n503.Add(1)
+				case strings.HasPrefix(string(resp), "HTTP/1.1 200"):
+				default:
+					lost.Add(1)
+				}
+			}
+		}()
+	}
+	wg.Wait()
+	_ = ln.Close() // Accept fails: Serve stops the pool and returns
+	select {
+	case <-served:
+	case <-time.After(3 * time.Second):
+		lost.Add(1000)
+	}
+	waitFor(func() bool { return workerGoroutines() <= base })
+	left := workerGoroutines() - base
+	if left < 0 {
+		left = 0
+	}
+	ln.mu.Lock()
+	crs := make([]string, len(ln.conns))
+	rej := 0
+	for i, cc := range ln.conns {
+		r := cc.rec
+		r.accepted = r.served.Load() > 0
+		if !r.accepted {
+			rej++
+		}
+		crs[i] = fmt.Sprintf("(mkCR %d%%nat %s %s %s %s %s %s)", cc.id, hlib.Bool(r.accepted), hlib.Z(int64(r.served.Load())),
+			hlib.Z(int64(cc.closes.Load())), hlib.Z(int64(r.stClosed.Load())), hlib.Z(int64(r.stHij.Load())), hlib.Bool(r.hij))
+	}
+	ln.mu.Unlock()
+	c := hlib.Case{Kind: "server", Size: d.NConn}
+	c.Coq = fmt.Sprintf("(CServer %s %s %s %s %s %s)", hlib.Z(int64(d.Max)), hlib.List(crs), hlib.Z(int64(maxc.Load())),
+		hlib.Z(int64(n503.Load())), hlib.Z(int64(lost.Load())), hlib.Z(int64(left)))
+	c.Sig = fmt.Sprintf("srv-%d-%d-%d", d.Max, d.Acceptors, bucket(rej))
 	return c
 }
 
@@ -661,10 +825,15 @@ func corpus() []desc {
 	c = append(c, desc{Mode: "replay", Cap: 1, Max: 0, IdleK: 1, Ops: ops("g g x")})
 	c = append(c, desc{Mode: "stress", Cap: 1, Max: 2, NConn: 40, Acceptors: 4, StopAfter: 30, WorkUs: 50, Seed: 1})
 	c = append(c, desc{Mode: "stress", Cap: 0, Max: 1, NConn: 30, Acceptors: 3, StopAfter: 100, WorkUs: 0, Seed: 2})
+	c = append(c, desc{Mode: "server", Max: 2, NConn: 30, Acceptors: 6, WorkUs: 300, Seed: 3}) // more clients than workers: some are answered 503 by Serve
+	c = append(c, desc{Mode: "server", Max: 8, NConn: 30, Acceptors: 3, WorkUs: 50, Seed: 4})  // nobody rejected
 	return c
 }
 
 func gen(r *rand.Rand, i int) desc {
+	if i%24 == 5 {
+		return desc{Mode: "server", Max: 1 + r.Intn(5), NConn: 15 + r.Intn(40), Acceptors: 1 + r.Intn(8), WorkUs: []int{0, 50, 400}[r.Intn(3)], Seed: r.Int63()}
+	}
 	if i%12 == 11 {
 		nc := 20 + r.Intn(100)
 		return desc{Mode: "stress", Cap: r.Intn(2), Max: 1 + r.Intn(4), NConn: nc, Acceptors: 1 + r.Intn(6),
@@ -688,6 +857,9 @@ func run(d desc) hlib.Case {
 	if d.Mode == "stress" {
 		return runStress(d)
 	}
+	if d.Mode == "server" {
+		return runServer(d)
+	}
 	return runReplay(d)
 }
 
@@ -700,7 +872,8 @@ func main() {
 		PropOK:   "prop_ok",
 		Rule: "replay: directed scenarios x cap{0,1} x MaxWorkersCount{1,2,3} x MaxIdle{default,1min30,2min30}, then seeded random op sequences (getCh, send, finish with nil/hijacked/error, " +
 			"release, swapped release, tick, clean, Stop) executed on the real workerPool by one controller; after each block ready/workersCount/mustStop are compared with the LTS; " +
-			"every trace ends with drain + Stop.  stress: concurrent Serve from 1-6 goroutines with the real cleaner and Stop in the middle.  " +
+			"every trace ends with drain + Stop.  stress: concurrent Serve from 1-6 goroutines with the real cleaner and Stop in the middle (Start and Stop called twice).  " +
+			"server: the public path — Server.Serve over an in-memory listener with Concurrency 1-5 and more clients than workers, one request per connection, every fifth hijacked; judged per accepted connection, on the 503 answers, and on the workerFunc goroutines left after Serve returned.  " +
 			"non-trivial = distinct (cap, max, idle, label-kind multiset) class",
 		Corpus:   corpus,
 		Gen:      gen,
